@@ -496,3 +496,27 @@ fn c04_all_record_data_unknown_variant_coherent() {
     kani::cover!(same && n1 == 2, "equal two-octet data");
     kani::cover!(t1 != t2 && n1 == n2 && d1 == d2, "same octets under different types");
 }
+
+// @funcs: <Nsec as PartialEq/PartialOrd/Ord/CanonicalOrd>, <RtypeBitmap as Ord/CanonicalOrd>, Nsec::compose_canonical_rdata
+// @bound: pairs of NSEC values: next names with structure (1) (symbolic octet incl. case variants), type bitmaps of one window with one bitmap octet (window number and bits symbolic): canonical_cmp = octet-wise order of the canonical wire forms (RFC 4034 6.3; next name not lower-cased, RFC 6840 5.1) and antisymmetric; == <=> cmp/partial_cmp Equal
+// @outside: longer names, multi-window bitmaps
+#[kani::proof]
+#[kani::unwind(12)]
+fn c04_canonical_rdata_order_nsec() {
+    use domain::rdata::dnssec::RtypeBitmap;
+    use domain::rdata::Nsec;
+    let (fa, fb) = (FlatName::any::<1, 0>(), FlatName::any::<1, 0>());
+    let (w1, w2, b1, b2): (u8, u8, u8, u8) = (kani::any(), kani::any(), kani::any(), kani::any());
+    kani::assume(b1 != 0 && b2 != 0);
+    let (m1, m2) = ([w1, 1, b1], [w2, 1, b2]);
+    let a = Nsec::new(fa.name(), RtypeBitmap::from_octets(&m1[..]).unwrap());
+    let b = Nsec::new(fb.name(), RtypeBitmap::from_octets(&m2[..]).unwrap());
+    let w = canon_order!(a.clone(), b.clone());
+    let same = lc(fa.w[1]) == lc(fb.w[1]) && m1 == m2;
+    assert!((a == b) == same);
+    assert!((a.cmp(&b) == Ordering::Equal) == same);
+    assert!((a.partial_cmp(&b) == Some(Ordering::Equal)) == same);
+    assert!(b.cmp(&a) == a.cmp(&b).reverse());
+    kani::cover!(fa.w[1] == fb.w[1] && m1 != m2, "same next name, different type bitmaps");
+    kani::cover!(w == Ordering::Less, "canonically less");
+}
